@@ -438,6 +438,9 @@ func runCase(cs Case) (string, stats) {
 					fmt.Printf("DEBUG scripted client: err=%v steps=%v\n", plog.Err, plog.Steps)
 				}
 				c.cst = pst
+				if plog.PostAuthAd != nil {
+					c.sid, _ = plog.PostAuthAd.EvaluateAttrString("Sid") // the session the server filed for this (possibly key-less) connection
+				}
 				c.authed = plog.AuthCompleted != ""
 				if c.authed {
 					c.user = osUser
